@@ -110,7 +110,9 @@ def run_all(chk, fsets, tier):
             rules_bits.run_clean_writes(chk, F, fs, specs)
         # ---- G4
         chk.rule("G4.numeric", floor=100, doc="E3 obligations of the code writers/len functions and copy paths re-run on this feature set (no overflow that only a debug build would catch)")
-        specs = [s for s in rn.code_specs() if not s.key.startswith("vbyte.io_")]
+        import rules_ivl
+        specs = [s for s in rn.code_specs() if not s.key.startswith("vbyte.io_") and s.key not in rules_ivl.E7_COVERED]
+        rules_ivl.run_domain_e7(chk, F, fs, tier, "G4.numeric", [k for k in rules_ivl.E7_COVERED if not k.startswith("vbyte.io_")])
         if "no_copy_impls" not in facts.FEATURE_SETS[fs]:
             specs += [s for s in rn.writer_specs() + rn.reader_specs() if s.group == "copy"]
         rn.run_specs(chk, F, specs, "G4.numeric", fs)
